@@ -475,5 +475,10 @@ func (s *Sim) admissionDetail(app string) string {
 	if a.State != "Accepted" {
 		return "state-" + a.State
 	}
+	if s.reloadsOK > 0 {
+		// the counts the gate works with are those of the trackers, which a reload that adds or moves limits under
+		// running applications leaves wrong (known finding, reload logic of ugm.Manager)
+		return "after-reload"
+	}
 	return ""
 }
